@@ -5,19 +5,30 @@ import CalVerif.Lemmas.BiffFormulas
 /-! C02 — XLS (BIFF8): every cell record reads back at its position with its value.
 
     Property theorems about the model `Model/Biff.lean` (namespace `BiffCells`) and the encoder
-    `Spec/BiffEnc.lean`. Everything is parametric in the two float operations `FOps` (`v as f64`, `x / 100.0`),
-    which are never reasoned about. Helper lemmas: `Lemmas/Biff*.lean`.
+    `Spec/BiffEnc.lean`. `v as f64` is `De.intToF64` (exact, Model/De.lean); the one float operation that is NOT
+    modelled is `x / 100.0` (`FOps.div100`, IEEE division): every theorem is parametric in it. Number formats are
+    C10's `CellFormat` (`env.fmts` = the table `Formats.xlsStyles` builds from the FORMAT / XF records).
+    Helper lemmas: `Lemmas/Biff*.lean`.
 
     * `rk_spec`, `rkInt_roundtrip`, `rkInt100_roundtrip`, `rkFloat_roundtrip` — RK numbers
+    * `fmtF64_formatF64`, `fmtI64_formatI64` — the wrap decision of the sheet loop is C10's `formatF64/formatI64`
     * `boolerr_bijective` (`parseErr_code/_inj/_other`), `boolerr_bool`, `boolerr_error`, `boolerr_other` — BOOLERR one-to-one
     * `mulrk_columns`, `mulrk_rejects`, `mulrk_no_panic`, `mulrk_run` — MULRK column arithmetic (after D31)
     * `parse_merge_cells_no_panic`, `parse_merge_cells_rejects` — MERGECELLS length checks (after b5774ce)
+      (a `_no_panic` theorem says the MODEL has no panic branch there; that the code has none either is what the
+      outcome-class correspondence of the harness checks)
     * `record_framing_roundtrip` — `RecordIter` over framed records
     * `formula_cached_value` — the FormulaValue shapes, string results from the next STRING record
-    * `number_encodings_equal`, `biff_encoding_independent` — NUMBER / RK / MULRK / FORMULA agree numerically
-    * `sheetRange_total` — the model's loop budgets suffice on every input (no `outOfFuel`)
-    * `biff_sheet_roundtrip` — the range of an encoded sheet is its bounding box with every value in place,
-      for every layout (record choice, MULRK grouping, ignorable records) -/
+    * `sheetRange_total` — the model's per-loop budgets (`RecordIter`, CONTINUE gathering) suffice on every input
+    * `biff_sheet_roundtrip` — the range of an encoded sheet is its bounding box and the value at every cell is
+      `expectVal` (the specification's reading of the cell under its layout entry), for every layout (record choice,
+      MULRK grouping, ignorable records) and every XF table
+    * `expectVal_rkInt/_rkFloat/_number`, `biff_sheet_rk_int` — Int versus Float is observable: an integer RK reads
+      `Int`, NUMBER / RK-float / FORMULA read `Float`
+    * `expectVal_date_typing`, `biff_sheet_date_typing` — a numeric cell reads `DateTime(serial, kind, is1904)` exactly
+      when its XF's format is DateTime / TimeDelta (kind = duration iff TimeDelta), serial and date system unchanged
+    * `number_encodings_equal`, `biff_encoding_independent` — through `sheetRange`: NUMBER / RK / MULRK / FORMULA
+      encodings of a number read as numerically equal values at the same cell -/
 
 namespace BiffCells
 open Biff
@@ -46,7 +57,7 @@ theorem rkInt_roundtrip (ops : FOps) (v : Int) (h1 : -536870912 ≤ v) (h2 : v <
 
 theorem rkInt100_roundtrip (ops : FOps) (v : Int) (h1 : -536870912 ≤ v) (h2 : v < 536870912) :
     rkNum ops (encodeRkInt v true) =
-      if v % 100 = 0 then .int (v / 100) else .float (ops.div100 (ops.i2f v)) := by
+      if v % 100 = 0 then .int (v / 100) else .float (ops.div100 (i2f v)) := by
   rw [rk_spec]
   unfold rkSpec encodeRkInt
   have e0 : ((v % 1073741824).toNat * 4 + 2 + if true = true then 1 else 0) = (v % 1073741824).toNat * 4 + 3 := by simp
@@ -262,18 +273,159 @@ theorem formula_cached_value (env : Env) (st : St) (p : PC) (c : Cached) (rgce :
   simp only [pcCell, pcVal, hp]
   cases c <;> rfl
 
+/-! ### typing by the XF: the wrap decision is C10's -/
+
+/-- C10's `NumData` (Model/Formats.lean) as a cell value: a serial given as an `i64` is `v as f64` -/
+def ofNumData : Formats.NumData → Val
+  | .int v => .int v
+  | .float b => .float b.toNat
+  | .dateTime (.bits b) k d => .dt b.toNat k d
+  | .dateTime (.ofI64 v) k d => .dt (i2f v) k d
+
+/-- `fmtF64` (what `parse_number`, the RK float arm and the FORMULA arm apply) is `Formats.formatF64` -/
+theorem fmtF64_formatF64 (bits : Nat) (h : bits < 18446744073709551616) (fmt : Option CellFormat) (d : Bool) :
+    fmtF64 bits fmt d = ofNumData (Formats.formatF64 (UInt64.ofNat bits) fmt d) := by
+  have e : (UInt64.ofNat bits).toNat = bits := by
+    rw [UInt64.toNat_ofNat']; exact Nat.mod_eq_of_lt h
+  cases fmt with
+  | none => simp [fmtF64, Formats.formatF64, ofNumData, e]
+  | some f => cases f <;> simp [fmtF64, Formats.formatF64, ofNumData, e]
+
+/-- `fmtI64` (the RK integer arm) is `Formats.formatI64` -/
+theorem fmtI64_formatI64 (v : Int) (fmt : Option CellFormat) (d : Bool) :
+    fmtI64 v fmt d = ofNumData (Formats.formatI64 v fmt d) := by
+  cases fmt with
+  | none => rfl
+  | some f => cases f <;> rfl
+
+/-! ### what the specification expects of one cell -/
+
+/-- whatever the layout, the content of a numeric cell denotes the cell's number -/
+theorem numContent_bits (env : Env) (x : Nat) (e : Enc) : numBits (numContent env x e) = x := by
+  unfold numContent
+  cases e with
+  | num ne =>
+    cases ne with
+    | number => rfl
+    | rk w =>
+      simp only
+      split
+      · next h => exact h.2
+      · rfl
+  | label w => rfl
+  | labelSst i => rfl
+  | boolerr => rfl
+  | formula a b c d => rfl
+
+/-- every reading of a numeric cell — `Int`, `Float` or `DateTime` — stands for the cell's number -/
+theorem expectVal_numOf (env : Env) (c : LCell) (l : Lay) (x : Nat) (hv : c.val = .num x) :
+    numOf (expectVal env c l) = some x := by
+  have hb := numContent_bits env x l.enc
+  simp only [expectVal, hv, typeNum]
+  cases hf : env.fmts[l.xf % 65536]? with
+  | none => cases hn : numContent env x l.enc <;> simp_all [numOf, numBits]
+  | some f =>
+    cases f with
+    | other => cases hn : numContent env x l.enc <;> simp_all [numOf, numBits]
+    | dateTime => simp [numOf, hb]
+    | timeDelta => simp [numOf, hb]
+
+/-- date typing, per cell: under an XF whose format is DateTime / TimeDelta a numeric cell is
+    `DateTime(x, kind, is1904)` with the cell's own number as serial and the workbook's date system; under any other
+    XF (or an ixfe beyond the table) it is never a `DateTime` -/
+theorem expectVal_date_typing (env : Env) (c : LCell) (l : Lay) (x : Nat) (hv : c.val = .num x) :
+    (env.fmts[l.xf % 65536]? = some .dateTime → expectVal env c l = .dt x .dateTime env.is1904) ∧
+    (env.fmts[l.xf % 65536]? = some .timeDelta → expectVal env c l = .dt x .timeDelta env.is1904) ∧
+    (env.fmts[l.xf % 65536]? ≠ some .dateTime → env.fmts[l.xf % 65536]? ≠ some .timeDelta →
+      ∀ b k d, expectVal env c l ≠ .dt b k d) := by
+  have hb := numContent_bits env x l.enc
+  simp only [expectVal, hv, typeNum]
+  refine ⟨fun h => by simp [h, hb], fun h => by simp [h, hb], fun h1 h2 b k d => ?_⟩
+  cases hf : env.fmts[l.xf % 65536]? with
+  | none => cases hn : numContent env x l.enc <;> simp
+  | some f =>
+    cases f with
+    | other => cases hn : numContent env x l.enc <;> simp
+    | dateTime => exact absurd hf h1
+    | timeDelta => exact absurd hf h2
+
+/-- the XF does not ask for a date/time -/
+def plainFmt (env : Env) (xf : Nat) : Prop :=
+  env.fmts[xf]? ≠ some CellFormat.dateTime ∧ env.fmts[xf]? ≠ some CellFormat.timeDelta
+
+theorem typeNum_plain (env : Env) (xf : Nat) (n : Num) (h : plainFmt env xf) :
+    typeNum env.fmts[xf]? env.is1904 n = match n with | .int v => .int v | .float b => .float b := by
+  unfold typeNum
+  cases hf : env.fmts[xf]? with
+  | none => rfl
+  | some f => cases f with
+    | other => rfl
+    | dateTime => exact absurd hf h.1
+    | timeDelta => exact absurd hf h.2
+
+/-- "30-bit RK integers as Int": the cell whose layout is the RK integer word of `v` reads `Int v` -/
+theorem expectVal_rkInt (env : Env) (c : LCell) (l : Lay) (v : Int) (h1 : -536870912 ≤ v) (h2 : v < 536870912)
+    (hv : c.val = .num (i2f v)) (he : l.enc = .num (.rk (encodeRkInt v false)))
+    (hf : plainFmt env (l.xf % 65536)) : expectVal env c l = .int v := by
+  have hs : rkSpec env.ops (encodeRkInt v false) = .int v := by
+    rw [← rk_spec]; exact rkInt_roundtrip env.ops v h1 h2
+  simp only [expectVal, hv, he, numContent, hs, numBits, encodeRkInt_lt, true_and, if_true]
+  rw [typeNum_plain env _ _ hf]
+
+/-- the ×100 integer word of `v` with `100 ∣ v` reads `Int (v / 100)` -/
+theorem expectVal_rkInt100 (env : Env) (c : LCell) (l : Lay) (v : Int) (h1 : -536870912 ≤ v) (h2 : v < 536870912)
+    (hd : v % 100 = 0) (hv : c.val = .num (i2f (v / 100))) (he : l.enc = .num (.rk (encodeRkInt v true)))
+    (hf : plainFmt env (l.xf % 65536)) : expectVal env c l = .int (v / 100) := by
+  have hs : rkSpec env.ops (encodeRkInt v true) = .int (v / 100) := by
+    rw [← rk_spec, rkInt100_roundtrip env.ops v h1 h2, if_pos hd]
+  simp only [expectVal, hv, he, numContent, hs, numBits, encodeRkInt_lt, true_and, if_true]
+  rw [typeNum_plain env _ _ hf]
+
+/-- a double stored as an RK float word reads `Float` -/
+theorem expectVal_rkFloat (env : Env) (c : LCell) (l : Lay) (x : Nat) (hx : x < 18446744073709551616)
+    (h34 : x % 17179869184 = 0) (hv : c.val = .num x) (he : l.enc = .num (.rk (encodeRkFloat x false)))
+    (hf : plainFmt env (l.xf % 65536)) : expectVal env c l = .float x := by
+  have hs : rkSpec env.ops (encodeRkFloat x false) = .float x := by
+    rw [← rk_spec]; simpa using rkFloat_roundtrip env.ops x hx h34 false
+  have hlt : encodeRkFloat x false < 4294967296 := by unfold encodeRkFloat; simp; omega
+  simp only [expectVal, hv, he, numContent, hs, numBits, hlt, true_and, if_true]
+  rw [typeNum_plain env _ _ hf]
+
+/-- NUMBER and FORMULA results read `Float` -/
+theorem expectVal_number (env : Env) (c : LCell) (l : Lay) (x : Nat) (hv : c.val = .num x)
+    (he : l.enc = .num .number ∨ ∃ a b c' d, l.enc = .formula a b c' d)
+    (hf : plainFmt env (l.xf % 65536)) : expectVal env c l = .float x := by
+  rcases he with he | ⟨a, b, c', d, he⟩ <;>
+    · simp only [expectVal, hv, he, numContent]
+      rw [typeNum_plain env _ _ hf]
+
+/-- strings, booleans and errors do not depend on the layout -/
+theorem expectVal_other (env : Env) (c : LCell) (l : Lay) (h : ∀ x, c.val ≠ .num x) :
+    expectVal env c l = c.val.toVal := by
+  unfold expectVal
+  cases hv : c.val with
+  | num x => exact absurd hv (h x)
+  | str s => rfl
+  | bool b => rfl
+  | err k => rfl
+
 /-! ### the whole sheet -/
 
+/-- For every logical sheet inside the BIFF8 grid (cells sorted row-major, distinct positions), every layout and every
+    XF table: reading the encoded substream succeeds, the range is the tight bounding box of the cells, the value at
+    the i-th cell is what the specification expects of it under the i-th layout entry (`expectVal`: the RkNumber
+    reading for an RK word that denotes the number — integers as `Int` —, the double for NUMBER / FORMULA, typed as
+    `DateTime` by a date/time XF; strings — the empty shared string included —, booleans, errors as they are), and
+    every other position is `Empty`. -/
 theorem biff_sheet_roundtrip (env : Env) (S : List LCell) (lays : List Lay)
-    (hS : ∀ c ∈ S, cellOk c) (hsorted : S.Pairwise cellLt)
-    (hfmt : ∀ l, (l ∈ lays ∨ l = default) → plainFmt env (l.xf % 65536)) :
+    (hS : ∀ c ∈ S, cellOk c) (hsorted : S.Pairwise cellLt) :
     ∃ r, sheetRange env (substream env S lays) = .ok r ∧
       (S = [] → r.inner.length = 0) ∧
       (S ≠ [] → r.inner.length ≠ 0 ∧
         (∀ c ∈ S, r.sr ≤ c.row ∧ c.row ≤ r.er ∧ r.sc ≤ c.col ∧ c.col ≤ r.ec) ∧
         (∃ c ∈ S, c.row = r.sr) ∧ (∃ c ∈ S, c.row = r.er) ∧
         (∃ c ∈ S, c.col = r.sc) ∧ (∃ c ∈ S, c.col = r.ec)) ∧
-      (∀ c ∈ S, numView env.ops (r.valAt c.row c.col) = c.val.toVal) ∧
+      (∀ i (h : i < S.length), r.valAt S[i].row S[i].col = expectVal env S[i] (lays[i]?.getD default)) ∧
       (∀ p q, (∀ c ∈ S, ¬ (c.row = p ∧ c.col = q)) → r.valAt p q = Val.empty) := by
   -- the planned cells and what the loop makes of them
   have hplan := plan_mem env S lays
@@ -293,19 +445,13 @@ theorem biff_sheet_roundtrip (env : Env) (S : List LCell) (lays : List Lay)
     obtain ⟨c, hc, e⟩ := List.mem_map.mp this
     simp only [Prod.mk.injEq] at e
     exact ⟨c, hc, e.1, e.2⟩
-  have ofS : ∀ c ∈ S, ∃ x ∈ (plan env S lays).map (pcCell env), x.1 = c.row ∧ x.2.1 = c.col ∧
-      numView env.ops x.2.2 = c.val.toVal := by
+  have ofS : ∀ c ∈ S, ∃ x ∈ (plan env S lays).map (pcCell env), x.1 = c.row ∧ x.2.1 = c.col := by
     intro c hc
     have : (c.row, c.col) ∈ ((plan env S lays).map (pcCell env)).map (fun x => (x.1, x.2.1)) := by
       rw [hpos]; exact List.mem_map.mpr ⟨c, hc, rfl⟩
     obtain ⟨x, hx, e⟩ := List.mem_map.mp this
     simp only [Prod.mk.injEq] at e
-    refine ⟨x, hx, e.1, e.2, ?_⟩
-    obtain ⟨p, hp, rfl⟩ := List.mem_map.mp hx
-    obtain ⟨c', hc', l, hl, rfl⟩ := hplan p hp
-    have : c' = c := pairwise_inj S hsorted c' hc' c hc e.1 e.2
-    subst this
-    exact planCell_val env c' l (hfmt l hl)
+    exact ⟨x, hx, e.1, e.2⟩
   have hpw : ((plan env S lays).map (pcCell env)).Pairwise Range.posLt := by
     have h1 : (S.map (fun c => (c.row, c.col))).Pairwise
         (fun a b : Nat × Nat => a.1 < b.1 ∨ (a.1 = b.1 ∧ a.2 < b.2)) := by
@@ -332,22 +478,26 @@ theorem biff_sheet_roundtrip (env : Env) (S : List LCell) (lays : List Lay)
     obtain ⟨h0, h1, ⟨a, ha, ea⟩, ⟨b, hb', eb⟩, ⟨c, hc, ec⟩, ⟨d, hd, ed⟩⟩ := hbox hne'
     refine ⟨h0, ?_, ?_, ?_, ?_, ?_⟩
     · intro c hc
-      obtain ⟨x, hx, e1, e2, _⟩ := ofS c hc
+      obtain ⟨x, hx, e1, e2⟩ := ofS c hc
       have := h1 x hx
       rw [e1, e2] at this; exact this
     · obtain ⟨s, hs, e1, _⟩ := toS a ha; exact ⟨s, hs, by rw [e1, ea]⟩
     · obtain ⟨s, hs, e1, _⟩ := toS b hb'; exact ⟨s, hs, by rw [e1, eb]⟩
     · obtain ⟨s, hs, _, e2⟩ := toS c hc; exact ⟨s, hs, by rw [e2, ec]⟩
     · obtain ⟨s, hs, _, e2⟩ := toS d hd; exact ⟨s, hs, by rw [e2, ed]⟩
-  · intro c hc
-    obtain ⟨x, hx, e1, e2, e3⟩ := ofS c hc
-    rw [← e1, ← e2, hval x hx]; exact e3
+  · intro i hi
+    have hg : (plan env S lays)[i]? = some (planCell env S[i] (lays[i]?.getD default)) := by
+      rw [plan_getElem, List.getElem?_eq_getElem hi]; rfl
+    have hmem : planCell env S[i] (lays[i]?.getD default) ∈ plan env S lays := List.mem_of_getElem? hg
+    have := hval _ (List.mem_map.mpr ⟨_, hmem, rfl⟩)
+    simp only [pcCell] at this
+    rw [← planCell_expect]
+    exact this
   · intro p q hno
     apply hout
     intro x hx ⟨e1, e2⟩
     obtain ⟨s, hs, f1, f2⟩ := toS x hx
     exact hno s hs ⟨by rw [f1, e1], by rw [f2, e2]⟩
-
 
 /-- an empty sheet (BOF, ignorable records, EOF) reads as the empty range -/
 theorem biff_sheet_empty (env : Env) (lays : List Lay) :
@@ -358,30 +508,68 @@ theorem biff_sheet_empty (env : Env) (lays : List Lay) :
     formulaCells_substream env [] (by simp)
   simp only [sheetRange, hdec, rangeOf, List.map_nil, Range.fromSparse, withFormulaRange, hfc, List.filter_nil]
 
-/-- the same number stored as NUMBER, as any RK word that denotes it (integer, float, ×100 variants), inside a
-    MULRK run or as a cached FORMULA value reads as a numerically equal value at the same cell -/
-theorem number_encodings_equal (env : Env) (c : LCell) (x : Nat) (l1 l2 : Lay) (hv : c.val = .num x)
-    (h1 : plainFmt env (l1.xf % 65536)) (h2 : plainFmt env (l2.xf % 65536)) :
-    pcCell env (planCell env c l1) = (c.row, c.col, pcVal env (planCell env c l1)) ∧
-    pcCell env (planCell env c l2) = (c.row, c.col, pcVal env (planCell env c l2)) ∧
-    numView env.ops (pcVal env (planCell env c l1)) = .float x ∧
-    numView env.ops (pcVal env (planCell env c l2)) = .float x := by
-  refine ⟨rfl, rfl, ?_, ?_⟩
-  · rw [planCell_val env c l1 h1, hv]; rfl
-  · rw [planCell_val env c l2 h2, hv]; rfl
+/-- "30-bit RK integers as Int", through the reader: in a sheet whose i-th cell holds the integer `v` and is laid out
+    as the RK integer word of `v` (alone or inside a MULRK run) under a non-date XF, the value read at that cell is
+    `Int v` — not `Float` -/
+theorem biff_sheet_rk_int (env : Env) (S : List LCell) (lays : List Lay)
+    (hS : ∀ c ∈ S, cellOk c) (hsorted : S.Pairwise cellLt) (i : Nat) (hi : i < S.length) (l : Lay)
+    (hl : lays[i]? = some l) (v : Int) (h1 : -536870912 ≤ v) (h2 : v < 536870912)
+    (hv : S[i].val = .num (i2f v)) (he : l.enc = .num (.rk (encodeRkInt v false)))
+    (hf : plainFmt env (l.xf % 65536)) :
+    ∃ r, sheetRange env (substream env S lays) = .ok r ∧ r.valAt S[i].row S[i].col = .int v := by
+  obtain ⟨r, e, _, _, hv', _⟩ := biff_sheet_roundtrip env S lays hS hsorted
+  refine ⟨r, e, ?_⟩
+  rw [hv' i hi, hl]
+  exact expectVal_rkInt env S[i] l v h1 h2 hv he hf
 
-/-- two layouts of the same sheet (any record choices, MULRK grouping, ignorable records) give ranges with the same
-    bounds and numerically equal values at every position -/
+/-- xls date typing at sheet level (the xls third of C10's "exactly when"): a numeric cell — NUMBER, RK, inside a MULRK
+    run, or a FORMULA result — whose XF's format class is DateTime (TimeDelta) reads `DateTime(x, DateTime (TimeDelta),
+    is1904)`: the serial is the cell's number, the date system the workbook's; under any other XF it is not a DateTime -/
+theorem biff_sheet_date_typing (env : Env) (S : List LCell) (lays : List Lay)
+    (hS : ∀ c ∈ S, cellOk c) (hsorted : S.Pairwise cellLt) (i : Nat) (hi : i < S.length) (x : Nat)
+    (hv : S[i].val = .num x) :
+    ∃ r, sheetRange env (substream env S lays) = .ok r ∧
+      (env.fmts[(lays[i]?.getD default).xf % 65536]? = some .dateTime →
+        r.valAt S[i].row S[i].col = .dt x .dateTime env.is1904) ∧
+      (env.fmts[(lays[i]?.getD default).xf % 65536]? = some .timeDelta →
+        r.valAt S[i].row S[i].col = .dt x .timeDelta env.is1904) ∧
+      (env.fmts[(lays[i]?.getD default).xf % 65536]? ≠ some .dateTime →
+        env.fmts[(lays[i]?.getD default).xf % 65536]? ≠ some .timeDelta →
+        ∀ b k d, r.valAt S[i].row S[i].col ≠ .dt b k d) := by
+  obtain ⟨r, e, _, _, hv', _⟩ := biff_sheet_roundtrip env S lays hS hsorted
+  refine ⟨r, e, ?_⟩
+  rw [hv' i hi]
+  exact expectVal_date_typing env S[i] _ x hv
+
+/-- "The same number encoded as NUMBER, RK or inside a MULRK run reads as a numerically equal value at the same cell",
+    through the reader: two layouts of the same sheet (any record choice per cell — NUMBER, any RK word denoting the
+    number, MULRK grouping, FORMULA — and any XFs) give, at every numeric cell, values that stand for the cell's own
+    double (`numOf`: an `Int` counts as `v as f64`, a `DateTime` as its serial) -/
+theorem number_encodings_equal (env : Env) (S : List LCell) (lays1 lays2 : List Lay)
+    (hS : ∀ c ∈ S, cellOk c) (hsorted : S.Pairwise cellLt) :
+    ∃ r1 r2, sheetRange env (substream env S lays1) = .ok r1 ∧ sheetRange env (substream env S lays2) = .ok r2 ∧
+      ∀ i (h : i < S.length) x, S[i].val = .num x →
+        numOf (r1.valAt S[i].row S[i].col) = some x ∧ numOf (r2.valAt S[i].row S[i].col) = some x := by
+  obtain ⟨r1, e1, _, _, v1, _⟩ := biff_sheet_roundtrip env S lays1 hS hsorted
+  obtain ⟨r2, e2, _, _, v2, _⟩ := biff_sheet_roundtrip env S lays2 hS hsorted
+  refine ⟨r1, r2, e1, e2, ?_⟩
+  intro i hi x hx
+  rw [v1 i hi, v2 i hi]
+  exact ⟨expectVal_numOf env S[i] _ x hx, expectVal_numOf env S[i] _ x hx⟩
+
+/-- two values agree up to the encoding of a number -/
+def sameNum (a b : Val) : Prop := a = b ∨ ∃ x, numOf a = some x ∧ numOf b = some x
+
+/-- two layouts of the same sheet (any record choices, MULRK grouping, ignorable records, XFs) give ranges with the same
+    bounds, equal strings / booleans / errors / empties and numerically equal numbers at every position -/
 theorem biff_encoding_independent (env : Env) (S : List LCell) (lays1 lays2 : List Lay)
-    (hS : ∀ c ∈ S, cellOk c) (hsorted : S.Pairwise cellLt)
-    (hf1 : ∀ l, (l ∈ lays1 ∨ l = default) → plainFmt env (l.xf % 65536))
-    (hf2 : ∀ l, (l ∈ lays2 ∨ l = default) → plainFmt env (l.xf % 65536)) :
+    (hS : ∀ c ∈ S, cellOk c) (hsorted : S.Pairwise cellLt) :
     ∃ r1 r2, sheetRange env (substream env S lays1) = .ok r1 ∧ sheetRange env (substream env S lays2) = .ok r2 ∧
       (r1.inner.length = 0 ↔ r2.inner.length = 0) ∧
       (S ≠ [] → r1.sr = r2.sr ∧ r1.er = r2.er ∧ r1.sc = r2.sc ∧ r1.ec = r2.ec) ∧
-      ∀ p q, numView env.ops (r1.valAt p q) = numView env.ops (r2.valAt p q) := by
-  obtain ⟨r1, e1, z1, n1, v1, o1⟩ := biff_sheet_roundtrip env S lays1 hS hsorted hf1
-  obtain ⟨r2, e2, z2, n2, v2, o2⟩ := biff_sheet_roundtrip env S lays2 hS hsorted hf2
+      ∀ p q, sameNum (r1.valAt p q) (r2.valAt p q) := by
+  obtain ⟨r1, e1, z1, n1, v1, o1⟩ := biff_sheet_roundtrip env S lays1 hS hsorted
+  obtain ⟨r2, e2, z2, n2, v2, o2⟩ := biff_sheet_roundtrip env S lays2 hS hsorted
   refine ⟨r1, r2, e1, e2, ?_, ?_, ?_⟩
   · by_cases hS0 : S = []
     · simp [z1 hS0, z2 hS0]
@@ -396,13 +584,21 @@ theorem biff_encoding_independent (env : Env) (S : List LCell) (lays1 lays2 : Li
   · intro p q
     by_cases h : ∃ c ∈ S, c.row = p ∧ c.col = q
     · obtain ⟨c, hc, rfl, rfl⟩ := h
-      rw [v1 c hc, v2 c hc]
+      obtain ⟨i, hi, rfl⟩ := List.getElem_of_mem hc
+      rw [v1 i hi, v2 i hi]
+      by_cases hn : ∃ x, S[i].val = .num x
+      · obtain ⟨x, hx⟩ := hn
+        exact Or.inr ⟨x, expectVal_numOf env S[i] _ x hx, expectVal_numOf env S[i] _ x hx⟩
+      · have hn' : ∀ x, S[i].val ≠ .num x := fun x hx => hn ⟨x, hx⟩
+        rw [expectVal_other env S[i] _ hn', expectVal_other env S[i] _ hn']
+        exact Or.inl rfl
     · have hno : ∀ c ∈ S, ¬ (c.row = p ∧ c.col = q) := fun c hc hpq => h ⟨c, hc, hpq⟩
       rw [o1 p q hno, o2 p q hno]
+      exact Or.inl rfl
 
 /-- non-vacuity: −5 as an RK integer (the word 0xFFFFFFEE), 12.34 as 1234 with fX100, 1.5 as an RK float -/
 example (ops : FOps) : rkNum ops 0xFFFFFFEE = .int (-5) ∧ encodeRkInt (-5) false = 0xFFFFFFEE
-    ∧ rkNum ops (encodeRkInt 1234 true) = .float (ops.div100 (ops.i2f 1234))
+    ∧ rkNum ops (encodeRkInt 1234 true) = .float (ops.div100 (i2f 1234))
     ∧ rkNum ops (encodeRkInt 1200 true) = .int 12
     ∧ rkNum ops (encodeRkFloat 0x3FF8000000000000 false) = .float 0x3FF8000000000000 := by
   refine ⟨?_, by decide, ?_, ?_, ?_⟩
@@ -413,30 +609,33 @@ example (ops : FOps) : rkNum ops 0xFFFFFFEE = .int (-5) ∧ encodeRkInt (-5) fal
   · simpa using rkFloat_roundtrip ops 0x3FF8000000000000 (by decide) (by decide) false
 
 
-/-- non-vacuity of `biff_sheet_roundtrip`: a sheet with a number (stored as the RK integer 5 inside a MULRK run),
-    its neighbour, a shared string, an error and a formula string meets every hypothesis -/
-example (ops : FOps) (h5 : ops.i2f 5 = 0x4014000000000000) :
-    let env : Env := { ops := ops, fmts := [.other, .dateTime], is1904 := false, strings := [[0x61, 0x62]] }
+/-- `v as f64` is computed, not assumed: 5 ↦ 0x4014000000000000, −5 ↦ 0xC014000000000000 -/
+example : i2f 5 = 0x4014000000000000 ∧ i2f (-5) = 0xC014000000000000 ∧ i2f 0 = 0 := by decide
+
+/-- non-vacuity of the sheet theorems: a sheet with the number 5 (stored as the RK integer word 22 inside a MULRK
+    run, under a plain XF), its neighbour under a date XF, a LABELSST naming the EMPTY shared string, an error and
+    a formula string meets every hypothesis; the first cell is expected to read `Int 5`, the second
+    `DateTime(5.0, DateTime, 1900)`, the third `String("")` -/
+example (ops : FOps) :
+    let env : Env := { ops := ops, fmts := [.other, .dateTime], is1904 := false, strings := [[]] }
     let S : List LCell := [⟨0, 1, .num 0x4014000000000000⟩, ⟨0, 2, .num 0x4014000000000000⟩,
-      ⟨3, 0, .str [0x61, 0x62]⟩, ⟨65535, 255, .err .na⟩]
-    let lays : List Lay := [{ enc := .num (.rk 22) }, { enc := .num (.rk 22), join := true },
+      ⟨3, 0, .str []⟩, ⟨65535, 255, .err .na⟩]
+    let lays : List Lay := [{ enc := .num (.rk 22) }, { enc := .num (.rk 22), join := true, xf := 1 },
       { enc := .labelSst 0, before := [⟨0x0201, [0, 0, 0, 0, 0, 0], []⟩] }, { enc := .formula [0x1E, 1, 0] false [] false }]
-    (∀ c ∈ S, cellOk c) ∧ S.Pairwise cellLt ∧ (∀ l, (l ∈ lays ∨ l = default) → plainFmt env (l.xf % 65536)) ∧
-    choose env (.num 0x4014000000000000) (.num (.rk 22)) = .rk 22 := by
+    (∀ c ∈ S, cellOk c) ∧ S.Pairwise cellLt ∧
+    expectVal env S[0] lays[0] = .int 5 ∧ expectVal env S[1] lays[1] = .dt 0x4014000000000000 .dateTime false ∧
+    expectVal env S[2] lays[2] = .str [] ∧ choose env S[2].val lays[2].enc = .labelSst 0 := by
   intro env S lays
-  refine ⟨?_, ?_, ?_, ?_⟩
+  have h5 : i2f 5 = 0x4014000000000000 := by decide
+  refine ⟨?_, ?_, ?_, ?_, ?_, ?_⟩
   · intro c hc
     simp only [S, List.mem_cons, List.not_mem_nil, or_false] at hc
     rcases hc with rfl | rfl | rfl | rfl <;>
       simp [cellOk, lvalOk, textOk, validText, toUnits]
   · simp [S, cellLt]
-  · intro l hl
-    have : l.xf = 0 := by
-      rcases hl with hl | hl
-      · simp only [lays, List.mem_cons, List.not_mem_nil, or_false] at hl
-        rcases hl with rfl | rfl | rfl | rfl <;> rfl
-      · rw [hl]; rfl
-    rw [this]; right; rfl
-  · simp [choose, rkSpec, numBits, env, h5]
+  · simp [expectVal, numContent, typeNum, rkSpec, numBits, env, S, lays, h5]
+  · simp [expectVal, numContent, typeNum, rkSpec, numBits, env, S, lays, h5]
+  · simp [expectVal, LVal.toVal, S]
+  · simp [choose, env, S, lays]
 
 end BiffCells
